@@ -25,6 +25,8 @@ META = {
 }
 
 WITNESSES = [
+    "0.3::e(a,a). 0.4::e(a,b). 0.5::e(b,a). loop :- e(X,X). link :- e(X,Y). both :- e(X,X), e(Y,Z). query(loop). query(link). query(both).",
+    "0.3::e(a,a). 0.4::e(a,b). 0.5::e(b,a). link :- e(X,Y). loop :- e(X,X). half(X) :- e(a,X). query(e(X,X)). query(e(X,Y)). query(half(X)). query(link).",
     "0.3::d0. d1 :- d0. 0.1::a; 0.2::d1 :- d1, \\+d0, d0. query(a). query(d1).",
     "0.3::d0. d1 :- d0. 0.1::a; 0.2::d1 :- d1, \\+d0, d0. query(d1). query(a).",
     "n(a). n(b). e(a,b). e(b,a). 0.5::pe(X,Y) :- e(X,Y). path(X,Y) :- pe(X,Y). path(X,Y) :- pe(X,Z), path(Z,Y). "
@@ -48,6 +50,11 @@ def make_history(rng, prog):
     ops = []
     gcs, pt = gp.possibly_true(prog)
     distract = sorted("%s(%s)" % (a[0], ",".join(a[1])) if a[1] else a[0] for a in (pt or []))
+    # non-ground call patterns of the binary predicates: specific (repeated variable / partially ground) and general
+    for (name, ar) in sorted(set((a[0], len(a[1])) for s in prog.clauses() for a in gp.stmt_heads(s))):
+        if ar == 2:
+            c0 = (prog.constants() or ["a"])[0]
+            distract += ["%s(X,X)" % name, "%s(X,Y)" % name, "%s(%s,Y)" % (name, c0)]
     i = 0
     while i < len(items):
         r = rng.random()
